@@ -14,7 +14,11 @@ package vmx
 //            tstate view over S on which the actions are run again.
 //   phase 2: hypersdk test VM (chaintest.TestAction): the key sets reported by
 //            SimulateActions are *declared* (SpecifiedStateKeys) in the actions
-//            of a real transaction.
+//            of a real transaction; written values include empty / one zero
+//            byte / maximal size.
+//   phase 3: test VM + chainfx.ProgAction (get/put/delete, reads encoded in the
+//            output) on a state with empty-valued, nil-valued, zero-byte,
+//            maximal and absent keys: see c30_kv_test.go.
 
 import (
 	"bytes"
@@ -506,7 +510,7 @@ func btoi(b bool) int {
 // ---------------- phase 2: test actions with declared (simulated) keys ----------------
 
 type c30TA struct {
-	Reads  []int `json:"reads"`
+	Reads  []int    `json:"reads"`
 	Writes []int    `json:"writes"`
 	Vals   []string `json:"values,omitempty"` // class of each written value
 	Fail   bool     `json:"fail,omitempty"`
